@@ -344,26 +344,14 @@ func c15Syntax(c *Ctx) {
 			continue
 		}
 		c.analysed(relName(f))
-		quote, comma, colon := false, false, false
+		quote := false
 		for _, i := range allInstrs(f) {
-			ci, ok := i.(*ssa.Call)
-			if !ok {
-				continue
-			}
-			switch calleeFullName(ci) {
-			case "strconv.Quote":
+			if ci, ok := i.(*ssa.Call); ok && calleeFullName(ci) == "strconv.Quote" {
 				quote = true
-			case "(*strings.Builder).WriteRune":
-				if r, ok := constInt(ci.Call.Args[1]); ok {
-					if r == ',' {
-						comma = true
-					}
-					if r == ':' {
-						colon = true
-					}
-				}
 			}
 		}
+		seps := emittedSeparators(f)
+		comma, colon := seps[','], seps[':']
 		c.check(quote && comma && colon == wv.colon, "syntax-agree", "writer:"+wv.typ, f.Pos(), "elements quoted with strconv.Quote, separated by ','"+map[bool]string{true: ", key:value by ':'", false: ""}[wv.colon],
 			"the writer does not emit strconv.Quote'd elements separated by ',' (and ':' exactly for maps)")
 	}
@@ -1110,4 +1098,37 @@ func c15QuotedThroughUnquote(c *Ctx, rule string) {
 			c.bad(rule, relName(f), f.Pos(), "no quoted literal goes through strconv.Unquote")
 		}
 	}
+}
+
+// emittedSeparators: the one-character constants a text-building function puts between the pieces it writes: the
+// argument of a Builder/Buffer WriteRune / WriteByte / WriteString, the separator of strings.Join, a constant
+// operand of a string concatenation.
+func emittedSeparators(f *ssa.Function) map[rune]bool {
+	out := map[rune]bool{}
+	one := func(v ssa.Value) {
+		if s, ok := constString(v); ok && len([]rune(s)) == 1 {
+			out[[]rune(s)[0]] = true
+		}
+	}
+	for _, i := range allInstrs(f) {
+		switch x := i.(type) {
+		case *ssa.Call:
+			switch calleeFullName(x) {
+			case "(*strings.Builder).WriteRune", "(*strings.Builder).WriteByte", "(*bytes.Buffer).WriteRune", "(*bytes.Buffer).WriteByte":
+				if r, ok := constInt(x.Call.Args[1]); ok {
+					out[rune(r)] = true
+				}
+			case "(*strings.Builder).WriteString", "(*bytes.Buffer).WriteString":
+				one(x.Call.Args[1])
+			case "strings.Join":
+				one(x.Call.Args[1])
+			}
+		case *ssa.BinOp:
+			if x.Op == token.ADD {
+				one(x.X)
+				one(x.Y)
+			}
+		}
+	}
+	return out
 }
